@@ -11,7 +11,7 @@ RULE = ("YAML documents with a pipeline of 1..8 elements, every element one of: 
         "arguments (lazy and eager tag settings), legacy __type__ mapping with keyword items; argument values = "
         "scalars, nested lists and mappings; a constructor failing at a random position in 20% of the documents with one of ten exception types (TypeError, "
         "KeyError, ... included); legacy elements may nest further __type__ mappings in their arguments; 15% of the elements are falsy objects (container-like, __len__ == 0); loaded "
-        "through cobald.daemon.core.config.load from a temporary .yaml file; non-trivial = at least 3 elements of at "
+        "in 30% one argument object is shared by up to three elements through a YAML anchor / alias (a mapping, or an object that owns a lock and cannot be copied) and must reach them as that very object; loaded through cobald.daemon.core.config.load from a temporary .yaml file; non-trivial = at least 3 elements of at "
         "least 2 syntactic forms; distinct = distinct YAML text")
 ASSUMPTIONS = ["PyYAML's mapping of nodes to construct_mapping / construct_sequence results (modelled as keywords / positionals)",
                "legacy elements carry keyword items only (an __args__ entry collides with target= and is outside the statement)"]
